@@ -371,6 +371,13 @@ class ExecBase:
     def eq(self, st, a, b):
         if a.ty == NONE and b.ty == NONE:
             return z3.BoolVal(True)
+        if self.spec and a.ty != NONE and b.ty != NONE:
+            ia = a.ty.inner if isinstance(a.ty, Opt) else a.ty
+            ib = b.ty.inner if isinstance(b.ty, Opt) else b.ty
+            if ia != ib and (isinstance(ia, T.Opaque) or isinstance(ib, T.Opaque)) and PYOBJ not in (ia, ib):
+                # a clause compares a value the model keeps opaque (e.g. an application object) with a modelled one: they
+                # may or may not be the same object - an unconstrained boolean, the witness search decides on the real code
+                return z3.FreshConst(z3.BoolSort(), "eq_with_opaque_value")
         if a.ty == NONE:
             a, b = b, a
         if b.ty == NONE:
@@ -412,7 +419,7 @@ class ExecBase:
             return a.t == b.t
         if self.spec and {type(a.ty), type(b.ty)} <= {Ref, Fut, type(INT)} and (a.ty == INT or b.ty == INT):
             return a.t == b.t          # specs may quantify over object identities as integers
-        if self.spec and PYOBJ in (a.ty, b.ty):
+        if self.spec and (PYOBJ in (a.ty, b.ty) or isinstance(a.ty, T.Opaque) or isinstance(b.ty, T.Opaque)):
             # a clause compares a modelled value with one the model knows nothing about (an attribute outside the class
             # model): not decidable from the model, so an unconstrained boolean - the clause cannot be discharged through it,
             # and the witness search decides on the real code
